@@ -145,6 +145,17 @@ func genSim(r *term.Rng, idx int) term.T {
 	tt := func(code int) term.T {
 		return []term.T{term.C("TEnemies"), term.C("TAllies"), term.C("TSelf")}[code]
 	}
+	// answers of a character's own Skill.CanUse / Ult.CanUse check (non-empty exactly for the kinds that
+	// register one), indexed by the number of action scripts the unit has left
+	checks := func(has bool) term.T {
+		out := []term.T{}
+		if has {
+			for j := r.Range(1, 7); j > 0; j-- {
+				out = append(out, term.B(r.Chance(2, 3)))
+			}
+		}
+		return term.L(out...)
+	}
 	units := []term.T{}
 	for i := 0; i < nc; i++ {
 		kind := r.Intn(len(charKinds))
@@ -160,13 +171,14 @@ func genSim(r *term.Rng, idx int) term.T {
 			return 2
 		}
 		units = append(units, term.C("mkUD", term.I(int64(kind)), term.B(true), term.F(k.spd), term.F(k.hp), term.F(k.maxEnergy),
-			term.F(en0), term.I(int64(k.spNeed)), term.I(int64(k.spAdd)), tt(code(k.ttA)), tt(code(k.ttS)), tt(code(k.ttU)), ids(r.Range(0, 6))))
+			term.F(en0), term.I(int64(k.spNeed)), term.I(int64(k.spAdd)), tt(code(k.ttA)), tt(code(k.ttS)), tt(code(k.ttU)), ids(r.Range(0, 6)),
+			checks(k.skillCheck), checks(k.ultCheck)))
 	}
 	for i := 0; i < ne; i++ {
 		hp := term.Pick(r, []float64{50, 100, 200, 400})
 		spd := term.Pick(r, []float64{80, 100, 100, 150, 60})
 		units = append(units, term.C("mkUD", term.I(int64(hp)), term.B(false), term.F(spd), term.F(hp*hpScale), term.F(0),
-			term.F(0), term.I(0), term.I(0), term.C("TEnemies"), term.C("TEnemies"), term.C("TEnemies"), ids(r.Range(0, 6))))
+			term.F(0), term.I(0), term.I(0), term.C("TEnemies"), term.C("TEnemies"), term.C("TEnemies"), ids(r.Range(0, 6)), term.L(), term.L()))
 	}
 	next := []term.T{}
 	for c := 1; c <= nc; c++ {
